@@ -178,11 +178,9 @@ class RBFRegressor(BaseRegressor):
             Returns:
                 The derivative of the function.
             """
+            # SciPy's linear kernel does not depend on the correlation length.
             return (
-                (norm_input_data > cls.TOL)
-                * input_data
-                / eps
-                / (norm_input_data + cls.TOL)
+                (norm_input_data > cls.TOL) * input_data / (norm_input_data + cls.TOL)
             )
 
         @classmethod
@@ -202,7 +200,8 @@ class RBFRegressor(BaseRegressor):
             Returns:
                 The derivative of the function.
             """
-            return 3 * norm_input_data * input_data / eps**3
+            # SciPy's cubic kernel does not depend on the correlation length.
+            return 3 * norm_input_data * input_data
 
         @classmethod
         def der_quintic(
@@ -221,7 +220,8 @@ class RBFRegressor(BaseRegressor):
             Returns:
                 The derivative of the function.
             """
-            return 5 * norm_input_data**3 * input_data / eps**5
+            # SciPy's quintic kernel does not depend on the correlation length.
+            return 5 * norm_input_data**3 * input_data
 
         @classmethod
         def der_thin_plate(
@@ -242,11 +242,11 @@ class RBFRegressor(BaseRegressor):
             Returns:
                 The derivative of the function.
             """
+            # SciPy's thin-plate kernel does not depend on the correlation length.
             return (
                 (norm_input_data > cls.TOL)
                 * input_data
-                / eps**2
-                * (1 + 2 * log(norm_input_data / eps + cls.TOL))
+                * (1 + 2 * log(norm_input_data + cls.TOL))
             )
 
     def _fit(self, input_data: RealArray, output_data: RealArray) -> None:
